@@ -10,6 +10,7 @@ import (
 	"strconv"
 	"strings"
 	"unicode"
+	"unicode/utf8"
 
 	"golang.org/x/perf/benchfmt"
 	bc "golang.org/x/perf/benchfmt/verifbridge"
@@ -123,7 +124,7 @@ func c02Oracle(contents []string) hx.Sx {
 	var out []hx.Sx
 	for _, c := range contents {
 		for _, line := range bytes.Split([]byte(c), []byte("\n")) {
-			if !bytes.HasPrefix(line, []byte("Benchmark")) || len(line) > 70000 {
+			if !bytes.HasPrefix(line, []byte("Benchmark")) {
 				continue
 			}
 			for _, f := range bytes.FieldsFunc(line[len("Benchmark"):], unicode.IsSpace) {
@@ -158,10 +159,79 @@ func c02ErrLine(err error, fname string) int {
 	return n
 }
 
+// ---------- known finding C02_file_line_overrides_tool_label ----------
+
+// c02KVKey is the key/value recogniser of the format (benchfmt's
+// parseKeyValueLine, which is not exported): the key of line if it is a
+// key/value line.
+func c02KVKey(line []byte) (string, bool) {
+	var key, val []byte
+	for i := 0; i < len(line); {
+		r, n := utf8.DecodeRune(line[i:])
+		if i == 0 && !unicode.IsLower(r) {
+			return "", false
+		}
+		if unicode.IsSpace(r) || unicode.IsUpper(r) {
+			return "", false
+		}
+		if i > 0 && r == ':' {
+			key, val = line[:i], line[i+1:]
+			break
+		}
+		i += n
+	}
+	if len(key) == 0 {
+		return "", false
+	}
+	if len(val) == 0 || val[0] == ' ' || val[0] == '\t' {
+		return string(key), true
+	}
+	return "", false
+}
+
+// c02LabelCollision: does a key/value line of the text name a key that the
+// tool installed as a label (labels are installed in order, an empty value
+// removes the key)?  Decided from the input alone.
+func c02LabelCollision(labels [][2]string, content string) bool {
+	inst := map[string]bool{}
+	for _, kv := range labels {
+		if kv[1] == "" {
+			delete(inst, kv[0])
+		} else {
+			inst[kv[0]] = true
+		}
+	}
+	if len(inst) == 0 {
+		return false
+	}
+	for _, line := range strings.Split(content, "\n") {
+		line = strings.TrimSuffix(line, "\r")
+		if strings.HasPrefix(line, "Benchmark") {
+			continue
+		}
+		if f := strings.FieldsFunc(line, unicode.IsSpace); len(line) > 0 && line[0] == 'U' && len(f) > 0 && f[0] == "Unit" {
+			continue
+		}
+		if k, ok := c02KVKey([]byte(line)); ok && inst[k] {
+			return true
+		}
+	}
+	return false
+}
+
+const c02TagLabel = "C02_file_line_overrides_tool_label"
+
 // ---------- one reader reused through Reset ----------
 
 func c02Reader(o *hx.Out, files []c02File, raw []string, tags ...string) (err error) {
 	in := c02Input{Kind: "reader", Files: files}
+	for i, f := range files {
+		if c02LabelCollision(f.Labels, raw[i]) {
+			tags = append(append([]string{}, tags...), c02TagLabel)
+			o.Count("class:key/value-line-names-a-tool-label")
+			break
+		}
+	}
 	defer func() {
 		if p := recover(); p != nil {
 			// the implementation panicked: that outcome is the case
@@ -518,7 +588,8 @@ func c02UnitLine(r *hx.Rng) string {
 func c02OtherLine(r *hx.Rng) string {
 	forms := []string{"PASS", "ok  \tpkg\t1.2s", "", "--- BENCH: BenchmarkX", "    file.go:12: msg", "benchmark: lower",
 		"Benchmarks", "BenchmarkX", "Benchmark", "FAIL", "goos:linux", "  goos: linux", "Goos: linux", "=== RUN   TestX",
-		"\u00a0", "\t", "key", "é", "É: v", "\xff: v", "U nit x k=v", " BenchmarkX 1 1 ns/op", " Unit x k=v", "benchmarkX 1 1 ns/op"}
+		"\u00a0", "\t", "key", "é", "É: v", "\xff: v", "U nit x k=v", " BenchmarkX 1 1 ns/op", " Unit x k=v", "benchmarkX 1 1 ns/op",
+		"a:b: c", "a:b:c", "a::", "a:: x", "a: :b", ":a: b", "a:b", "k1:\u00a0v", "k1:\v v", "goos: : x", "Unit", "Unit ns/op", "Benchmark 1 1 ns/op", "Benchmark\t", "Unit\u2003x k=v", "Unitx: v", "unit: v"}
 	if r.Chance(0.15) {
 		b := make([]byte, r.Range(1, 12))
 		for i := range b {
@@ -658,7 +729,7 @@ func c02Labels(r *hx.Rng) [][2]string {
 }
 
 func genC02(o *hx.Out, r *hx.Rng, tier string, replay string) error {
-	o.Rule = "byte-level benchmark texts: lines weighted 40% benchmark / 25% key-value / 10% unit / 25% foreign, 12% of lines mutated (byte deleted / inserted / replaced, incl. invalid UTF-8 and U+00A0/U+2028), separators from ASCII and Unicode white space, LF / CRLF / CRCRLF endings, missing final newline; read (a) through one benchfmt.Reader reused by Reset over 1-3 inputs with arbitrary initial labels and (b) through benchfmt.Files over 1-4 real files with duplicate paths, label=path arguments and missing files; 30% of the key/value lines carry a mixed-script key of 1-4 runes drawn from rune classes (ASCII / non-ASCII lower case, ASCII / non-ASCII upper case, titlecase, caseless and Other_Lowercase/Other_Uppercase letters, digits, marks, ASCII and non-ASCII white space), and every such rune is also tried alone, first, last and in the middle of a key (directed); inputs of 50-600 results with distinct random names totalling more than 64 KiB (every result cloned at Scan time, all clones re-serialised at the end: Name, configuration values, values); hostile: 1500 distinct keys / units (intern-table eviction), set/delete/re-set key histories, a 70000-byte line; the caller of the reused Reader may stop after k Scans (also between the records queued by one Unit line) and Reset. Every result is cloned at Scan time and re-serialised at the end. non-trivial = at least one result record; distinct by input bytes"
+	o.Rule = "byte-level benchmark texts: lines weighted 40% benchmark / 25% key-value / 10% unit / 25% foreign, 12% of lines mutated (byte deleted / inserted / replaced, incl. invalid UTF-8 and U+00A0/U+2028), separators from ASCII and Unicode white space, LF / CRLF / CRCRLF endings, missing final newline; read (a) through one benchfmt.Reader reused by Reset over 1-3 inputs with arbitrary initial labels and (b) through benchfmt.Files over 1-4 real files with duplicate paths, label=path arguments and missing files; 30% of the key/value lines carry a mixed-script key of 1-4 runes drawn from rune classes (ASCII / non-ASCII lower case, ASCII / non-ASCII upper case, titlecase, caseless and Other_Lowercase/Other_Uppercase letters, digits, marks, ASCII and non-ASCII white space), and every such rune is also tried alone, first, last and in the middle of a key (directed); inputs of 50-600 results with distinct random names totalling more than 64 KiB (every result cloned at Scan time, all clones re-serialised at the end: Name, configuration values, values); hostile: 1500 distinct keys / units (intern-table eviction), set/delete/re-set key histories, lines of 64 KiB and more (foreign, benchmark, key/value; 65534-140000 bytes, LF and CR LF); the caller of the reused Reader may stop after k Scans (also between the records queued by one Unit line) and Reset. Every result is cloned at Scan time and re-serialised at the end. non-trivial = at least one result record; distinct by input bytes"
 	o.Add(hx.L(hx.I(0), hx.List(unicodeRanges(unicode.IsSpace)), hx.List(unicodeRanges(unicode.IsLower)), hx.List(unicodeRanges(unicode.IsUpper))),
 		map[string]string{"kind": "tables"}, "tables", false)
 
@@ -672,6 +743,7 @@ func genC02(o *hx.Out, r *hx.Rng, tier string, replay string) error {
 		"a: 1\nb: 2\nc: 3\na:\nBenchmarkX 1 1 ns/op\nd: 4\nb:\nBenchmarkX 1 1 ns/op\na: 5\nBenchmarkX 1 1 ns/op\n",
 		"Unit ns/op better=lower\nUnit sec/op better=higher\nUnit ns/op better=lower\n",
 		"BenchmarkX\nBenchmarkX \nBenchmarkX 1\nBenchmarkX 1 1\nBenchmarkX x 1 ns/op\nBenchmarkX 1 x ns/op\nBenchmark 1 1 ns/op\n",
+		"a:b: c\nBenchmarkX 1 1 ns/op\nUnit ns/op\nUnit\nBenchmark 2 2 ns/op\na: b: c\nBenchmarkY 1 1 ns/op\n",
 		"k: v\r\nBenchmarkX 1 1 ns/op\r\n", "k: v\r\r\nBenchmarkX 1 0 ns/op +Inf MB/s\n",
 	}
 	for _, t := range fixed {
@@ -828,6 +900,17 @@ func genC02(o *hx.Out, r *hx.Rng, tier string, replay string) error {
 			sb.WriteString("BenchmarkY 1 1 ns/op\n")
 		case 4: // exactly at the limit, unterminated
 			sb.WriteString("BenchmarkX 1 1 ns/op\n" + strings.Repeat("z", 65535+r.Intn(2)))
+		case 5: // a foreign line far over the limit, results on both sides (the audit's witness)
+			sb.WriteString("BenchmarkX 1 1 ns/op\n# " + strings.Repeat("y", 70000+r.Intn(70000)) + "\nBenchmarkY 1 1 ns/op\n")
+		case 6: // a benchmark line over the limit: long name, and many measurements
+			sb.WriteString("k: v\nBenchmark" + strings.Repeat("N", 65536+r.Intn(300)) + " 7 1 ns/op\n")
+			sb.WriteString("BenchmarkM 1" + strings.Repeat(" 2 ns/op", 8200+r.Intn(50)) + "\nBenchmarkZ 1 1 ns/op\n")
+		case 7: // a configuration value over the limit, shown by the next result, then deleted
+			sb.WriteString("long: " + strings.Repeat("v", 65530+r.Intn(12)) + "\nBenchmarkX 1 1 ns/op\nlong:\nBenchmarkY 1 1 ns/op\n")
+		case 8: // lines of 65534..65537 bytes with CR LF endings around the limit
+			for d := -2; d <= 1; d++ {
+				sb.WriteString("# " + strings.Repeat("c", 65536-2+d) + "\r\nBenchmarkX 1 " + strconv.Itoa(d+5) + " ns/op\n")
+			}
 		}
 		return sb.String()
 	}
@@ -836,8 +919,11 @@ func genC02(o *hx.Out, r *hx.Rng, tier string, replay string) error {
 		nh = 4
 	}
 	for rep := 0; rep < nh; rep++ {
-		for kind := 0; kind < 5; kind++ {
+		for kind := 0; kind < 9; kind++ {
 			t := hostile(kind)
+			if kind >= 3 {
+				o.Count("class:line-of-64KiB-or-more")
+			}
 			t2 := c02Text(r, o, 10)
 			files := []c02File{{Name: "h", Content: strconv.Quote(t)}, {Name: "after", Content: strconv.Quote(t2)}}
 			if err := c02Reader(o, files, []string{t, t2}, "hostile"); err != nil {
@@ -867,8 +953,9 @@ func genC02(o *hx.Out, r *hx.Rng, tier string, replay string) error {
 		var contents []string
 		for range names {
 			n := r.Intn(16)
-			if r.Chance(0.02) {
-				contents = append(contents, hostile(3))
+			if r.Chance(0.03) {
+				contents = append(contents, hostile([]int{3, 5, 7}[r.Intn(3)]))
+				o.Count("class:files:line-of-64KiB-or-more")
 				continue
 			}
 			if i%100 == 7 && len(contents) == 0 {
